@@ -133,6 +133,7 @@ def check(ctx):
     d = fw.param_default('fmt')
     rep.add('G4', fw.site(), 'values are written with a fixed four-decimal format by default', d is not None and is_const(d, '0.4f'), expected="'0.4f'", found=u(d), stmt='default format')
     rep.add('G4', fi.site(dc), 'the command uses that default format', get_kw(dc, 'fmt') is None and len(dc.args) <= 5, expected='fmt not overridden', found=u(dc), stmt='format not overridden')
+    rep.account_returns('G4', fw, [], 'row (the writer must not leave before every row is written)')
     wr = [s for s in stmts_in(fw.node.body) if isinstance(s, ast.Assign) and isinstance(s.value, ast.Call) and u(s.value.func) == 'csv.writer']
     rows = [c for c in calls_in(fw.node) if callee_attr(c) == 'writerow']
     rep.add('G4', fw.site(wr[0] if wr else None), 'cells go through csv.writer (labels with commas/quotes stay parseable)', len(wr) == 1 and all(u(c.func.value) == u(wr[0].targets[0]) for c in rows) and len(rows) == 2, expected='csv.writer(...).writerow x2',
